@@ -182,6 +182,6 @@ def grid(tier):
 
 
 PARTS = [
-    Part('random', 'hyp', run_case, strategy=cases(), quick=5000, thorough=800000, quick_shards=8),
+    Part('random', 'hyp', run_case, strategy=cases(), quick=15000, thorough=800000, quick_shards=8),
     Part('grid', 'sweep', run_case, sweep=grid, quick_shards=8, exhaustive=True),
 ]
